@@ -281,12 +281,47 @@ def r4_sanitizer(chk: Check) -> None:
     else:
         p_ = parent(netloc_assign[0])
         tt = unparse(p_.test) if isinstance(p_, ast.If) else "?"
+        val_ = netloc_assign[0].value if isinstance(netloc_assign[0], ast.Assign) else None
+        if not isinstance(p_, ast.If) and isinstance(val_, ast.IfExp) and isinstance(val_.test, ast.Name):
+            # `netloc = f"{repl}@{host}" if sep else parsed.netloc` with `_, sep, host = netloc.(r)partition("@")`
+            sepv = val_.test.id
+            from_part = any(isinstance(s_, ast.Assign) and isinstance(s_.targets[0], ast.Tuple) and len(s_.targets[0].elts) == 3 and isinstance(s_.targets[0].elts[1], ast.Name) and s_.targets[0].elts[1].id == sepv and isinstance(s_.value, ast.Call) and last_attr(s_.value) in ("partition", "rpartition") for s_ in walk_body(su.node))
+            if from_part:
+                chk.ok("C15.R4", su, "authority redacted when userinfo is present", "conditioned on the presence of the `@` separator", su.loc(netloc_assign[0]))
+                netloc_assign = []
         split_at = set(defined_by(su, "$v = $_.netloc.split('@')")) | set(defined_by(su, "$v = $_.split('@')"))
-        ok = isinstance(p_, ast.If) and (any(phas(f"len({v_}) > 1", p_.test) for v_ in split_at) or ("'@' in" in tt) or ("username" in tt and "password" in tt and " or " in tt))
+        ok = bool(netloc_assign) and isinstance(p_, ast.If) and (any(phas(f"len({v_}) > 1", p_.test) for v_ in split_at) or ("'@' in" in tt) or ("username" in tt and "password" in tt and " or " in tt))
         narrowed = isinstance(p_, ast.If) and ("password" in tt and "username" not in tt and "@" not in tt and not any(v_ in tt for v_ in split_at))
-        chk.decide(True if ok else (False if narrowed else None), "C15.R4", su, "authority redacted when userinfo is present",
-                   f"redaction is conditioned on `{tt}`: userinfo without a password (token-as-username) is written in clear", su.loc(netloc_assign[0]))
+        if netloc_assign:
+            chk.decide(True if ok else (False if narrowed else None), "C15.R4", su, "authority redacted when userinfo is present",
+                       f"redaction is conditioned on `{tt}`: userinfo without a password (token-as-username) is written in clear", su.loc(netloc_assign[0]))
     del cond
+    # WHERE the authority is cut: URL parsers (urllib, urllib3, requests) take everything before the LAST `@` as
+    # userinfo - a login like `john@example.com:SECRET@host` has an `@` inside it
+    cut_calls = [c for c in body_calls(su) if isinstance(c.func, ast.Attribute) and c.func.attr in ("split", "rsplit", "partition", "rpartition") and c.args and const_str(c.args[0]) == "@"]
+    for c in cut_calls:
+        construct = "the host kept in the sanitized URL is what follows the LAST `@`"
+        attr = c.func.attr  # type: ignore[union-attr]
+        if attr in ("rpartition", "rsplit"):
+            chk.ok("C15.R4", su, construct, attr, su.loc(c))
+        elif attr == "partition":
+            chk.violation("C15.R4", su, construct,
+                          "`partition('@')` cuts at the FIRST `@`: for `http://john@example.com:SECRET@host/api` the result is `http://[Filtered]@example.com:SECRET@host/api` - the password (everything after an `@` inside the userinfo) stays in the console output, the curl command and JUnit",
+                          su.loc(c))
+        else:
+            # split('@'): fine iff the LAST element is the one that is kept
+            tgt_ = stmt_of(c)
+            v_ = tgt_.targets[0].id if isinstance(tgt_, ast.Assign) and len(tgt_.targets) == 1 and isinstance(tgt_.targets[0], ast.Name) else None
+            idx = [x for x in walk_body(su.node) if isinstance(x, ast.Subscript) and isinstance(x.value, ast.Name) and x.value.id == v_ and isinstance(x.ctx, ast.Load)]
+            last = any(unparse(x.slice) == "-1" for x in idx)
+            first = any(unparse(x.slice) in ("1", "0") for x in idx) and not last
+            limited = len(c.args) > 1 or kwarg(c, "maxsplit") is not None
+            if last and not limited:
+                chk.ok("C15.R4", su, construct, "split('@')[-1]", su.loc(c))
+            elif first or limited:
+                chk.violation("C15.R4", su, construct, "the element kept after `split('@')` is not the last one (or the split is limited from the left): an `@` inside the userinfo leaves the rest of the secret in the output", su.loc(c))
+            else:
+                chk.undecided("C15.R4", su, construct, "use of the split result not recognised", su.loc(c))
     qv = pfind("$q = parse_qs($p.query, keep_blank_values=True)", su.node)
     chk.expect(bool(qv) and phas("sanitize_value($q, config=config)", su.node, env={"q": qv[0][1]["q"]}), "C15.R4", su, "query parameters sanitized by key", "query parameters are not sanitized", su.loc())
     rq = kwarg(rep_[0], "query") if rep_ else None
